@@ -2,6 +2,7 @@
 import Gpv.Drv.Acc
 import Gpv.Drv.P2
 import Gpv.Drv.Pipe
+import Gpv.Drv.Misc
 open Gpv Gpv.Drv
 
 structure DSt where
@@ -17,6 +18,11 @@ def dispatch (st : DSt) (line : String) : DSt × List String :=
       ({ st with acc := a }, out)
     else if w.startsWith "p2f." || w.startsWith "p2q." then (st, p2Dispatch ws)
     else if w.startsWith "pipe." then (st, pipeDispatch ws)
+    else if w.startsWith "res." then (st, resDispatch ws)
+    else if w.startsWith "cache." then (st, cacheDispatch ws)
+    else if w.startsWith "strm." then (st, strmDispatch ws)
+    else if w.startsWith "net." then (st, netDispatch ws)
+    else if w.startsWith "store." then (st, storeDispatch ws)
     else if w = "#" then (st, [])
     else (st, ["bad-op"])
 
